@@ -406,10 +406,12 @@ def emit_decoders(L, pkgpath, structs, methods, src, stats):
             continue
         L.append("func %s.%s" % (pkgpath, fname))
         L.append("  params %s, aliasMap" % pi)
+        L.append("  [C11] requires manager_installed: mgr != nil")
+        L.append("  [C11] ensures terminates_without_panic: true")
         L.append("  modifies gIriTaken, alloc")
-        L.append("  [C12] at call net/url.Parse#1: ghost gIriTaken = ($res1 == nil && len($res0.Scheme) > 0)")
+        L.append("  [C11,C12] at call net/url.Parse#1: ghost gIriTaken = ($res1 == nil && len($res0.Scheme) > 0)")
         L.extend("  " + c.replace("err_is_nil", "result1 == nil") for c in cl)
-        L.append("  [C12] ensures a_decoded_element_is_a_new_object: result1 == nil ==> result0 != nil && fresh(result0) && allocated(result0)")
+        L.append("  [C11,C12] ensures a_decoded_element_is_a_new_object: result1 == nil ==> result0 != nil && fresh(result0) && allocated(result0)")
         L.append("dyncall %s.%s.* satisfies slot-decoder-call" % (pkgpath, fname))
         stats["functions"] += 1
         iter_decoders[iname] = fname
@@ -428,6 +430,8 @@ def emit_decoders(L, pkgpath, structs, methods, src, stats):
             continue
         L.append("func %s.%s" % (pkgpath, fname))
         L.append("  params m, aliasMap")
+        L.append("  [C11] requires manager_installed: mgr != nil")
+        L.append("  [C11] ensures terminates_without_panic: true")
         L.append("  modifies gIriTaken")
         L.append('  let A = (has(aliasMap, "%s") ? aliasMap["%s"] : "")' % (op["uri"], op["uri"]))
         L.append('  let PN = (len(A) > 0 ? A + ":" + "%s" : "%s")' % (op["name"], op["name"]))
@@ -437,7 +441,7 @@ def emit_decoders(L, pkgpath, structs, methods, src, stats):
         else:
             L.append('  let PRESENT = has(m, PN)')
             L.append('  let RAW = m[PN]')
-        L.append("  [C12] at call net/url.Parse#1: ghost gIriTaken = ($res1 == nil && len($res0.Scheme) > 0)")
+        L.append("  [C11,C12] at call net/url.Parse#1: ghost gIriTaken = ($res1 == nil && len($res0.Scheme) > 0)")
         L.append("  [C12] ensures an_absent_property_decodes_to_nothing: !PRESENT ==> result0 == nil && result1 == nil")
         cl = decode_chain(slot, "RAW", "result0", stats, pkgpath + "." + fname, pre="PRESENT && ", extra=" && result0.alias == A")
         if cl is None:
@@ -463,6 +467,8 @@ def emit_decoders(L, pkgpath, structs, methods, src, stats):
         R = 'cast(result0.pl, "*%s")' % T
         L.append("func %s.%s" % (pkgpath, fname))
         L.append("  params m, aliasMap")
+        L.append("  [C11] requires manager_installed: mgr != nil")
+        L.append("  [C11] ensures terminates_without_panic: true")
         L.append("  modifies gItN, gItRaw, gItRes, gIriTaken")
         L.append('  let A = (has(aliasMap, "%s") ? aliasMap["%s"] : "")' % (op["uri"], op["uri"]))
         L.append('  let PN = (len(A) > 0 ? A + ":" + "%s" : "%s")' % (op["name"], op["name"]))
@@ -477,20 +483,20 @@ def emit_decoders(L, pkgpath, structs, methods, src, stats):
         L.append('  let N = (ISLIST ? len(LIST) : 1)')
         L.append('  let G0 = gItN')
         dk = "%s.%s" % (pkgpath, iter_decoders[iname])
-        L.append("  [C12] at call %s#*: ghost gItRaw = gItRaw[gItN := $arg0]" % dk)
-        L.append("  [C12] at call %s#*: ghost gItRes = gItRes[gItN := $res0]" % dk)
-        L.append("  [C12] at call %s#*: ghost gItN = gItN + 1" % dk)
+        L.append("  [C11,C12] at call %s#*: ghost gItRaw = gItRaw[gItN := $arg0]" % dk)
+        L.append("  [C11,C12] at call %s#*: ghost gItRes = gItRes[gItN := $res0]" % dk)
+        L.append("  [C11,C12] at call %s#*: ghost gItN = gItN + 1" % dk)
         L.append("  [C12] ensures an_absent_property_decodes_to_nothing: !PRESENT ==> result0 == nil && result1 == nil")
         L.append('  [C12] ensures one_element_per_member_in_order: PRESENT && result1 == nil ==> result0.dyn == typetag("*%s") && %s != nil && %s.alias == A && len(%s.properties) == N && gItN == G0 + N && (forall k Int :: {%s.properties[k]} 0 <= k && k < N ==> %s.properties[k] == gItRes[G0 + k] && gItRaw[G0 + k] == (ISLIST ? LIST[k] : RAW))' % (T, R, R, R, R, R))
         L.append('  [C12] ensures elements_know_their_owner_and_position: PRESENT && result1 == nil ==> (forall k Int :: {%s.properties[k]} 0 <= k && k < N ==> %s.properties[k].parent == result0 && %s.properties[k].myIdx == k)' % (R, R, R))
         for lo in (1, 2):
-            L.append("  loop %d [C12] invariant own_new_object: this != nil && fresh(this) && this.alias == A && (arrof(this.properties) == 0 || fresh(arrof(this.properties)))" % lo)
-            L.append("  loop %d [C12] invariant logged_results_exist: forall j Int :: {gItRes[j]} G0 <= j && j < gItN ==> gItRes[j] != nil && allocated(gItRes[j])" % lo)
-            L.append("  loop %d [C12] invariant logged_results_are_new: forall j Int :: {gItRes[j]} G0 <= j && j < gItN ==> fresh(gItRes[j]) && gItRes[j] != this" % lo)
-            L.append("  loop %d [C12] invariant logged_results_are_distinct: forall j Int, k Int :: {gItRes[j], gItRes[k]} G0 <= j && j < k && k < gItN ==> gItRes[j] != gItRes[k]" % lo)
-        L.append("  loop 1 [C12] invariant decoded_so_far: PRESENT && ISLIST && $ri + 1 <= len(LIST) && len(this.properties) == $ri + 1 && gItN == G0 + $ri + 1 && (forall k Int :: {this.properties[k]} 0 <= k && k <= $ri ==> this.properties[k] == gItRes[G0 + k] && gItRaw[G0 + k] == LIST[k])")
-        L.append("  loop 2 [C12] invariant all_decoded: PRESENT && len(this.properties) == N && gItN == G0 + N && $ri + 1 <= N && (forall k Int :: {this.properties[k]} 0 <= k && k < N ==> this.properties[k] == gItRes[G0 + k] && gItRaw[G0 + k] == (ISLIST ? LIST[k] : RAW))")
-        L.append('  loop 2 [C12] invariant linked_so_far: forall k Int :: {this.properties[k]} 0 <= k && k <= $ri ==> this.properties[k].parent == asiface(this, "*%s") && this.properties[k].myIdx == k' % T)
+            L.append("  loop %d [C11,C12] invariant own_new_object: this != nil && fresh(this) && this.alias == A && (arrof(this.properties) == 0 || fresh(arrof(this.properties)))" % lo)
+            L.append("  loop %d [C11,C12] invariant logged_results_exist: forall j Int :: {gItRes[j]} G0 <= j && j < gItN ==> gItRes[j] != nil && allocated(gItRes[j])" % lo)
+            L.append("  loop %d [C11,C12] invariant logged_results_are_new: forall j Int :: {gItRes[j]} G0 <= j && j < gItN ==> fresh(gItRes[j]) && gItRes[j] != this" % lo)
+            L.append("  loop %d [C11,C12] invariant logged_results_are_distinct: forall j Int, k Int :: {gItRes[j], gItRes[k]} G0 <= j && j < k && k < gItN ==> gItRes[j] != gItRes[k]" % lo)
+        L.append("  loop 1 [C11,C12] invariant decoded_so_far: PRESENT && ISLIST && $ri + 1 <= len(LIST) && len(this.properties) == $ri + 1 && gItN == G0 + $ri + 1 && (forall k Int :: {this.properties[k]} 0 <= k && k <= $ri ==> this.properties[k] == gItRes[G0 + k] && gItRaw[G0 + k] == LIST[k])")
+        L.append("  loop 2 [C11,C12] invariant all_decoded: PRESENT && len(this.properties) == N && gItN == G0 + N && $ri + 1 <= N && (forall k Int :: {this.properties[k]} 0 <= k && k < N ==> this.properties[k] == gItRes[G0 + k] && gItRaw[G0 + k] == (ISLIST ? LIST[k] : RAW))")
+        L.append('  loop 2 [C11,C12] invariant linked_so_far: forall k Int :: {this.properties[k]} 0 <= k && k <= $ri ==> this.properties[k].parent == asiface(this, "*%s") && this.properties[k].myIdx == k' % T)
         stats["functions"] += 1
     # Name(): the member name a property is written under -- the "Map" form exactly when a natural-language
     # property holds a language map (an alias prefix is allowed either way)
